@@ -39,7 +39,7 @@ def zext( value, new_width ):
     assert new_width >= value.nbits
     return Bits( new_width, value.uint() )
   else:
-    assert issubclass( new_width, Bits )
+    assert issubclass( new_width, Bits ) and new_width.nbits >= value.nbits
     return new_width( value.uint() )
 
 def clog2( N ):
@@ -56,7 +56,7 @@ def sext( value, new_width ):
     assert new_width >= value.nbits
     return Bits( new_width, value.int() )
   else:
-    assert issubclass( new_width, Bits )
+    assert issubclass( new_width, Bits ) and new_width.nbits >= value.nbits
     return new_width( value.int() )
 
 def reduce_and( value ):
